@@ -126,17 +126,16 @@ extern "C" DMap::iterator au_d_erase_it(DMap *, DMap::iterator it) {
 extern "C" size_t au_d_erase_key(DMap *, CRef const & k) { int i = dfind(k); if (i < 0) return 0; d_erase_slot(i); return 1; }
 
 // ---------------------------------------------------------------- the proof object
-union RawCA { char raw; ClauseAllocator ca; constexpr RawCA() : raw(0) {} ~RawCA() {} };
-union RawProof { char raw; ResolutionProof p; constexpr RawProof() : raw(0) {} ~RawProof() {} };
-static RawCA rawca;
-static RawProof rawp;
+// typed storage without construction: only declared here, defined in assumption_units_rt.c (c_include / native_c)
+extern "C" { extern ResolutionProof au_proof_obj; extern ClauseAllocator au_ca_obj; }
+static_assert(sizeof(ResolutionProof) <= 512 && sizeof(ClauseAllocator) <= 512, "native replay storage in assumption_units_rt.c too small");
 static CRef chain_buf[NCH]; static Var pivot_buf[NCH];
 
 // extra = ClauseAllocator::extra_clause_field (case split by entry: constant for symex)
 static void au_body(const bool extra) {
-    ClauseAllocator & ca = rawca.ca;
+    ClauseAllocator & ca = au_ca_obj;
     ca.memory = ca_mem; ca.sz = 0; ca.cap = CA_WORDS; ca.wasted_ = 0; ca.extra_clause_field = extra;
-    ResolutionProof & P = *::new ((void *)&rawp.p) ResolutionProof(ca);     // real constructor: empty maps, no open chain
+    ResolutionProof & P = *::new ((void *)&au_proof_obj) ResolutionProof(ca);     // real constructor: empty maps, no open chain
     member_map = &P.assumed_literals;
     n_tmp = 0; foreign_lit = d_overflow = d_bad_erase = false;
 
